@@ -126,6 +126,50 @@ def diene_oracle(ctx, case, steps, ctor_err):
                              f'result has {[p for p in got if p[:2] in [d[:2] for d in diff]]}')
 
 
+def shared_case(rng):
+    """a marked double bond next to a shared ('!') atom: the shared atom is an anchor of the double bond (V…), a marked
+    substituent (R3) or further away (R1, R2); the fragment holding the other copy is listed after (AB) or before (BA) the
+    one with the marks.  The geometry is the one pysmiles reads from the uncut SMILES (contract P0).  Class E3 (open
+    finding): the atom that carries a slash mark is the copy that squash_atoms removes (BA), or the shared anchor is the
+    first atom of its fragment with its marked substituent in a branch (V1)."""
+    import pysmiles
+    x, y, z = rng.sample(['F', 'Cl', 'Br', 'I'], 3)
+    m, n = rng.choice('/\\'), rng.choice('/\\')
+    fams = {
+        'V1': (f'C({m}{x})({y})=C{n}{z}', f'[!]C({m}{x})=C{n}{z}', f'[!]C{y}'),
+        'V1b': (f'{x}{m}C({y})=C{n}{z}', f'{x}{m}C[!]=C{n}{z}', f'[!]C{y}'),
+        'V2': (f'{x}{m}C=C({y}){n}{z}', f'{x}{m}C=C[!]{n}{z}', f'[!]C{y}'),
+        'V2b': (f'{x}{m}C=C({n}{z}){y}', f'{x}{m}C=C[!]{n}{z}', f'C[!]{y}'),
+        'R1': (f'{x}{m}C=C{n}C({z})C{y}', f'{x}{m}C=C{n}C({z})C[!]', f'[!]C{y}'),
+        'R2': (f'{y}CC({z}){m}C=C{n}{x}', f'[!]CC({z}){m}C=C{n}{x}', f'{y}C[!]'),
+        'R3': (f'{x}{m}C=C{n}C({y}){z}', f'{x}{m}C=C{n}C[!]{z}', f'[!]C{y}'),
+    }
+    fam = rng.choice(sorted(fams))
+    order = rng.choice(['AB', 'BA'])
+    plain, a, b = fams[fam]
+    with lib.quiet():
+        ref = found_pairs(pysmiles.read_smiles(plain, explicit_hydrogen=True))
+    base = '{[#A][#B]}' if order == 'AB' else '{[#B][#A]}'
+    return {'kind': 'stereo-shared', 's': '%s.{#A=%s,#B=%s}' % (base, a, b), 'plain': plain, 'cuts': ['shared-' + fam + '-' + order],
+            'all_atom': True, 'legacy': True, 'e3': fam == 'V1' or (order == 'BA' and fam not in ('R1', 'R2')),
+            'pairs': sorted([p, q, sorted(c)[0]] for (p, q), c in ref.items())}
+
+
+def shared_oracle(ctx, case, steps, ctor_err):
+    fid = 'E3' if case.get('e3') else None
+    if steps is None or steps[-1]['result'] != 'ok':
+        ctx.fail(dict(case), f'{case["plain"]} written with a shared atom is rejected', finding=fid)
+        return
+    got = sorted([a, b, sorted(c)[0] if len(c) == 1 else sorted(c)] for (a, b), c in found_pairs(steps[-1]['fine_graph']).items())
+    if got != case['pairs']:
+        ctx.fail(dict(case), f'{case["plain"]} written with a shared atom: cis/trans relations {got}, the molecule that was written has '
+                             f'{case["pairs"]}', finding=fid)
+
+
+def oracle_for(case):
+    return {'stereo-diene': diene_oracle, 'stereo-shared': shared_oracle}.get(case.get('kind'), oracle)
+
+
 def classify(case):
     """E1: a double bond is cut and the final node indices do not follow one left-to-right writing of
     it: the base graph lists its right-hand fragment first, the right-hand fragment is written
@@ -162,20 +206,23 @@ def run(ctx):
         case = diene_case(rng_d)
         suites.run_resolve_case(ctx, 'stereo-diene', case, oracle=diene_oracle)
         ctx.feature('branched-diene:' + case['cuts'][0])
+    # a shared ('!') atom on or next to a marked double bond (found while reading what the round-7 sub-agents reported)
+    rng_s = ctx.rng('stereo-shared')
+    for _ in range(ctx.budget(40, 500)):
+        case = shared_case(rng_s)
+        suites.run_resolve_case(ctx, 'stereo-shared', case, oracle=shared_oracle)
+        ctx.feature(case['cuts'][0] + (':E3' if case['e3'] else ''))
 
 
 def corpus_case(ctx, payload):
-    if payload.get('case', {}).get('kind') == 'stereo-diene':
-        suites.run_resolve_case(ctx, 'corpus', payload['case'], oracle=diene_oracle)
-        return
-    suites.run_resolve_case(ctx, 'corpus', payload['case'], oracle=oracle)
+    suites.run_resolve_case(ctx, 'corpus', payload['case'], oracle=oracle_for(payload['case']))
 
 
 def replay(payload):
     import check
     ctx = check.Ctx(PROP, 'quick', 0, oracle_only=True)
     case = payload['case']
-    suites.run_resolve_case(ctx, 'replay', case, oracle=diene_oracle if case.get('kind') == 'stereo-diene' else oracle, compare=False)
+    suites.run_resolve_case(ctx, 'replay', case, oracle=oracle_for(case), compare=False)
     for c, what, fid in ctx.failures:
         print('FAILS:', what, f'[{fid}]' if fid else '')
     print('input:', case.get('s'))
@@ -190,5 +237,5 @@ def finding_still_fails(f):
     with open(path) as fh:
         payload = json.load(fh)
     ctx = check.Ctx(PROP, 'quick', 0, oracle_only=True)
-    suites.run_resolve_case(ctx, 'finding', payload['case'], oracle=oracle, compare=False)
+    suites.run_resolve_case(ctx, 'finding', payload['case'], oracle=oracle_for(payload['case']), compare=False)
     return bool(ctx.failures)
